@@ -113,3 +113,8 @@ const (
 	maximumTTL = 12 * time.Hour
 	defaultCap = 1024 * 256
 )
+
+// MaxLease is the ceiling on a delegation's lifetime. It is part of the
+// lease: whatever is learned through a delegation is bound by the deadline
+// the table applies to the delegation itself.
+const MaxLease = maximumTTL
